@@ -22,7 +22,7 @@ ASSUMPTIONS = ["CPython 3.12: generator.close() returns None, so a force-closed 
 PROBES = ["empty_doer_set_over_stale_doers", "limit_not_multiple_of_tock", "limit_hit_with_alive", "completed_in_limit_cycle", "returned_none", "returned_false",
           "all_completed_in_enter", "float_and_exact_limit_cycle_differ"]
 BOUNDS = dict(quick=dict(nodes=8, depth=3, steps=6), thorough=dict(nodes=14, depth=4, steps=10))
-TIERS = dict(quick=dict(cases=20000, wall=40.0), thorough=dict(cases=1200000, wall=420.0))
+TIERS = dict(quick=dict(cases=40000, wall=60.0), thorough=dict(cases=1200000, wall=420.0))
 
 
 def feat_for(tier):
